@@ -85,9 +85,18 @@ class DeflateDecompressor(SimpleGzipDecompressor):
     def __init__(self):
         super().__init__()
         self.decompressobj = None
+        self._header_buffer = b''
 
     def decompress(self, value):
         if not self.decompressobj:
+            # The 2 byte zlib header is needed to tell zlib from raw deflate
+            value = self._header_buffer + value
+            self._header_buffer = b''
+
+            if len(value) < 2:
+                self._header_buffer = value
+                return b''
+
             try:
                 self.decompressobj = zlib.decompressobj()
                 return self.decompressobj.decompress(value)
@@ -98,8 +107,14 @@ class DeflateDecompressor(SimpleGzipDecompressor):
         return self.decompressobj.decompress(value)
 
     def flush(self):
+        data = b''
+
+        if not self.decompressobj and self._header_buffer:
+            self.decompressobj = zlib.decompressobj(-zlib.MAX_WBITS)
+            data = self.decompressobj.decompress(self._header_buffer)
+
         if self.decompressobj:
-            return super().flush()
+            return data + super().flush()
         else:
             return b''
 
